@@ -210,6 +210,10 @@ def get_crop_item_from_points(points, wcs, crop_by_values, keepdims, array_shape
             max_idx = max(max(axis_indices) + 1, 0)
             if max_idx <= min_idx or (array_shape is not None and min_idx >= array_shape[axis]):
                 raise ValueError(f"All input points lie outside the array along array axis {axis}.")
+            # Likewise, points off the end of the array must not widen the box beyond the array,
+            # or an extent of a single pixel at the end of an axis would not be recognised as such.
+            if array_shape is not None:
+                max_idx = min(max_idx, array_shape[axis])
             if max_idx - min_idx == 1 and not keepdims:
                 item.append(min_idx)
             else:
